@@ -3,7 +3,8 @@
    indices in range, the clock never steps backwards, external (kernel-side)
    actions at a wait are only condition changes / raw posts / time passing, and
    descriptor exhaustion (EMFILE) is only injected under the poll methods (under
-   epoll the library documents it as fatal). *)
+   epoll the library documents it as fatal).  The optional system calls eventfd2 /
+   eventfd may fail from the first call or from the k-th creation on (efd_ok). *)
 From Coq Require Import List ZArith Bool.
 From Ivv Require Import Core.Kernel Core.CoreTypes Core.CoreFd Core.CoreModel Core.Monitors.
 Import ListNotations.
@@ -43,4 +44,5 @@ Record wf_scenario (sc : scenario) : Prop := {
   wf_waits : forall k, Forall wf_wait_action (sc_wait sc k);
   wf_emfile : emfile (sc_faults sc) = true -> 2 <= sc_backend sc;
   wf_ctl : 0 <= eintr_ctl (sc_faults sc);
+  wf_efd : 0 <= efd_ok (sc_faults sc);
 }.
